@@ -124,17 +124,17 @@ def handle (st : DSt) (line : String) : Option (DSt × String) :=
     let P ← st.prog
     let i ← nat? i
     if i ≥ P.n then none
-    some (st, toString (lfp P (envOf st.inputs) i))
+    some (st, toString ((lfpL P (envOf st.inputs)).getD i 0))
   | ["fbref", i] => do
     let P ← st.prog
     let i ← nat? i
     if i ≥ P.n then none
-    some (st, toString (fbReference P (envOf st.inputs) i))
+    some (st, toString ((fbReferenceL P (envOf st.inputs)).getD i 0))
   | ["oncycle", i] => do
     let P ← st.prog
     let i ← nat? i
     if i ≥ P.n then none
-    some (st, if onCycle P (envOf st.inputs) i then "1" else "0")
+    some (st, if onCycleL P (envOf st.inputs) i then "1" else "0")
   | ["iters"] => do
     let _ ← st.prog
     some (st, toString st.lastIters)
